@@ -63,8 +63,8 @@ PLANS["C17"] = {
     "thorough": [J("window21", "p=2,f=2,c=1,s=1", 400), J("window21x", "p=3,f=1,s=2", 300), J("c11-idwrap", "thorough", 120, test="TestE3", shards=1), J("window21wrap", "p=2,f=2,c=1,s=1", 400), J("window10", "p=2,f=2,c=1", 200), J("window3neg", "p=2,f=2,c=1", 200), J("c17-longrun", "thorough", 600, test="TestE3", shards=4), J("c17-slots", "thorough", 120, test="TestE3", shards=1)],
 }
 PLANS["C18"] = {
-    "quick": [J("connect", "p=1,f=1", 45), J("connectclean", "p=1,f=1", 45)],
-    "thorough": [J("connect", "p=1,f=2,s=1", 600), J("connectclean", "p=1,f=2,s=1", 600), J("connectfull", "f=1", 300)],
+    "quick": [J("connect", "p=1,f=1", 45), J("connectclean", "p=1,f=1", 45), J("connectretry", "f=3", 45)],
+    "thorough": [J("connect", "p=1,f=2,s=1", 600), J("connectclean", "p=1,f=2,s=1", 600), J("connectfull", "f=1", 300), J("connectretry", "p=1,f=4,s=1", 400)],
 }
 
 PLANS["C13"] = {
